@@ -380,6 +380,14 @@ func (f *Frame) lookupName(name string, b *ssa.BasicBlock, idx int) (ssa.Value, 
 			switch ins := blk.Instrs[i].(type) {
 			case *ssa.DebugRef:
 				if debugRefName(ins) == name {
+					if c, isConst := ins.X.(*ssa.Const); isConst && !ins.IsAddr && (c.Value == nil) {
+						// x/tools v0.29 records the zero value at the defining occurrence of "x := <composite>" (the
+						// variable's cell before the assignment): prefer a use of the same variable whose value
+						// is defined at a point dominating here
+						if alt := f.dominatingUse(name, b, idx); alt != nil {
+							return alt, false, true
+						}
+					}
 					return ins.X, ins.IsAddr, true
 				}
 			case *ssa.Phi:
@@ -414,6 +422,38 @@ func (f *Frame) lookupName(name string, b *ssa.BasicBlock, idx int) (ssa.Value, 
 		}
 	}
 	return nil, false, false
+}
+
+// dominatingUse finds a DebugRef of the named variable anywhere in the function whose value is an instruction
+// defined in a block dominating b (the deepest such definition wins).
+func (f *Frame) dominatingUse(name string, b *ssa.BasicBlock, idx int) ssa.Value {
+	var best ssa.Value
+	var bestBlock *ssa.BasicBlock
+	for _, blk := range f.fn.Blocks {
+		for _, ins := range blk.Instrs {
+			d, ok := ins.(*ssa.DebugRef)
+			if !ok || d.IsAddr || debugRefName(d) != name {
+				continue
+			}
+			vi, isInstr := d.X.(ssa.Instruction)
+			if !isInstr {
+				continue
+			}
+			db := vi.Block()
+			if db == nil || !(db.Dominates(b)) {
+				continue
+			}
+			if db == b && idx < 0 {
+				if _, isPhi := d.X.(*ssa.Phi); !isPhi {
+					continue
+				}
+			}
+			if bestBlock == nil || bestBlock.Dominates(db) {
+				best, bestBlock = d.X, db
+			}
+		}
+	}
+	return best
 }
 
 func shortPos(fset *token.FileSet, p token.Pos) string {
